@@ -33,7 +33,7 @@ from checks import _c19_helpers as H
 
 ID = "C19"
 LEVEL = "exploration"
-RUNS = {"quick": 5000, "thorough": 150000}
+RUNS = {"quick": 4000, "thorough": 150000}
 WALL_CAP = {"quick": 120, "thorough": 3000}
 RULE = ("one case = one generated list of 1-20 BCP messages (parameter dicts over str/int/float/bool/None/nested, "
         "optional binary payload, hello/unknown commands as noise) encoded once and fed as the same byte stream "
@@ -46,7 +46,7 @@ PROBES = ["cut_in_line", "cut_before_nl", "cut_after_nl_before_payload", "cut_in
           "one_byte_chunks", "all_at_once", "payload_msg", "payload_with_newline", "payload_with_marker",
           "big_payload", "json_form", "json_form_with_payload", "hello_in_stream", "unknown_cmd_in_stream",
           "trigger_dispatched", "eof_after_stream", "multi_client", "handler_hold", "bad_class_run",
-          "same_callback_chunks", "stall_between_chunks", "codec_checked", "debug_logging"]
+          "same_callback_chunks", "stall_between_chunks", "codec_checked", "debug_logging", "trigger_with_callback"]
 REAL = ["mpf.core.bcp.bcp_socket_client.BCPClientSocket (read_message, _process_command, send, hello)",
         "mpf.core.bcp.bcp_socket_client.encode_command_string/decode_command_string",
         "mpf.core.bcp.bcp_transport.BcpTransportManager (_receive_loop, register/unregister)",
@@ -58,6 +58,7 @@ STUBS = ["event loop (SimLoop: virtual time, stalls, tie order)", "clock (SimClo
          "StreamWriter towards the media controller (records writes, answers reset with reset_complete)",
          "virtual hardware platform", "in-memory data manager"]
 ASSUMPTIONS = ["command names are BCP-style identifiers ([a-z0-9_]+); parameter names are arbitrary non-empty str",
+               "the parameter name 'rawbytes' is reserved (it is how the binary payload is handed to the handler)",
                "strings are sequences of Unicode scalar values (no lone surrogates); nested dict keys are str",
                "a line is shorter than the StreamReader limit (64 KiB, asyncio default as used by open_connection)",
                "payload framing as sent by the media controller: '<line>&bytes=<n>\\n' followed by n >= 1 raw bytes",
@@ -104,6 +105,9 @@ def _gen_op(ch, allowed):
             kw = {"name": ch.pick("op.ev", EVENTS)}
             kw.update(H.gen_kwargs(ch, keys_plain=H.TRIGGER_KEYS, allow_odd=False))
             kw["name"] = kw["name"] if isinstance(kw["name"], str) else EVENTS[0]
+            if ch.flag("op.callback", 0.15):
+                # BCP: "callback" names an event to send back once the triggered event has been handled
+                kw["callback"] = ch.pick("op.cbval", ["c19_cb", "c19_ev1", "", None, "done & over"])
             op["kw"] = kw
         elif kind == "hello":
             op["cmd"] = "hello"
@@ -288,7 +292,7 @@ def _cuts_for(spec, stream, lay):
     cuts = set()
     mode = spec["mode"]
     if mode == "one":
-        if total <= 3000:
+        if total <= 1500:
             cuts.update(range(1, total))
         else:
             # byte by byte through every line and the edges of every payload, 257-byte steps inside big payloads
@@ -306,7 +310,7 @@ def _cuts_for(spec, stream, lay):
         cuts.update(x["end"] for x in lay)
     if "sizes" in mode:
         sizes = list(spec["sizes"])
-        while total / (sum(sizes) / len(sizes)) > 3000:
+        while total / (sum(sizes) / len(sizes)) > 1500:
             sizes = [s * 4 for s in sizes]
         p = 0
         i = 0
@@ -356,6 +360,7 @@ class _Client:
         self.spec = spec
         self.next = 0            # number of messages dispatched so far
         self.in_handler = None   # index of the message whose handler is running
+        self.failed_in = None    # index of the message whose handler raised
         self.chunks = []
         self.ci = 0
         self.fed_done = False
@@ -538,15 +543,26 @@ def execute(ctx, plan):
             c = by_obj[client.name]
             idx = c.next - 1
             c.in_handler = idx
+            entry = None
             try:
                 if inner is not None:
-                    pending_triggers.append((kwargs.get("name"), {k: v for k, v in kwargs.items() if k != "name"}))
+                    # relaxation: the statement says nothing about how `name`/`callback` of a trigger are presented
+                    # to the event handlers; every other parameter must arrive unchanged
+                    entry = (kwargs.get("name"), {k: v for k, v in kwargs.items() if k not in ("name", "callback")})
+                    pending_triggers.append(entry)
                     ctx.probe("trigger_dispatched")
+                    if kwargs.get("callback"):
+                        ctx.probe("trigger_with_callback")
                     await inner(client=client, **kwargs)
                 hold = exp["hold"] if exp else 0.0
                 if hold:
                     ctx.probe("handler_hold")
                     await asyncio.sleep(hold)
+            except BaseException:
+                c.failed_in = idx           # for on_crash: the handler of this message raised
+                if entry is not None and any(e is entry for e in pending_triggers):
+                    pending_triggers[:] = [e for e in pending_triggers if e is not entry]
+                raise
             finally:
                 c.in_handler = None
         return handler
@@ -563,7 +579,7 @@ def execute(ctx, plan):
                               % (name, H.short(kwargs)))
                 return
             ename, ekw = pending_triggers.pop(0)
-            got = {k: v for k, v in kwargs.items() if k != "_from_bcp"}
+            got = {k: v for k, v in kwargs.items() if k not in ("_from_bcp", "name", "callback")}
             if ename != name or not H.typed_eq(got, ekw) or kwargs.get("_from_bcp") is not True:
                 ctx.violation("trigger_event", "differs", "trigger %s %s was posted as event %s %s"
                               % (ename, H.short(ekw), name, H.short(kwargs)))
@@ -672,8 +688,6 @@ def execute(ctx, plan):
             ctx.log("eof", c.name, c.next, t=loop.time())
             if c.next != n:
                 ctx.violation("stream_extra", "after_eof", "client %s: %d dispatches after EOF" % (c.name, c.next - n))
-            if transport.get_named_client(c.name) is not False:
-                ctx.violation("stream_lost", "eof_ignored", "client %s still registered after EOF" % c.name)
 
 
 # ------------------------------------------------------------------------------------------------
@@ -705,12 +719,13 @@ def on_crash(ctx, crash):
     classes = set()
     window = "?"
     if culprit is not None:
-        n = culprit.in_handler if culprit.in_handler is not None else culprit.next
-        lo = ref[n - 1]["op"] + 1 if 0 < n <= len(ref) else 0
-        if culprit.in_handler is not None:
-            lo = ref[n]["op"] if n < len(ref) else len(ops)
-        hi = ref[n]["op"] if n < len(ref) else len(ops) - 1
-        window = "%d..%d" % (lo, hi)
+        if culprit.failed_in is not None and culprit.failed_in < len(ref):
+            lo = hi = ref[culprit.failed_in]["op"]            # raised inside the handler of this message
+        else:
+            n = culprit.next                                   # raised before the next dispatch
+            lo = ref[n - 1]["op"] + 1 if 0 < n <= len(ref) else 0
+            hi = ref[n]["op"] if n < len(ref) else len(ops) - 1
+        window = "%d..%d" % (lo, hi) if lo <= hi else "none (all %d messages were consumed)" % len(ops)
         for op in ops[lo:hi + 1]:
             classes.update(H.bad_classes(op["kw"]))
     sig = "%s:%s:%s" % (type(exc).__name__, func, "+".join(sorted(classes)) or "clean")
